@@ -58,4 +58,8 @@ theorem package_vars_users :
        ("pipePattern", ["ParsePipe"]),
        ("topLevelFunctions", ["ReaderExecutor", "RegisterTopLevelFunction"])] := by decide
 
+/-- the sub-packages (`compare`, `sanitizer`) hold no package-level variable at all: everything they
+    compute with is local to the call, so concurrent comparisons / sanitisations share nothing -/
+theorem sub_packages_stateless : subPackageVars = [] := by decide
+
 end Genql.Obligations.C13
